@@ -33,8 +33,10 @@ mod prng;
 mod monitors;
 mod plan;
 mod probe;
+mod prov;
 mod sim;
 mod world;
+mod blocksim;
 mod checks;
 mod checks_pure;
 mod pure;
